@@ -1403,7 +1403,8 @@ def offsets_u2q(F, FL):
             if n.get('fn') == 'read' and any(field_root(member_path(a)) == 'm_uncompressedFile' for a in n.get('args', [])):
                 if first_read:
                     # probing header: consumes headerSize bytes from the object start (resync skips filler before it)
-                    off = off.add(term='HDR')
+                    # the search for the signature first steps over FILLER bytes (possibly none) in front of the object
+                    off = off.add(term='FILLER').add(term='HDR')
                     hdr_var = local_id(n.get('obj'))
                     first_read = False
                 else:
@@ -1520,7 +1521,7 @@ def S2S3(F, rep, FL, rules):
     if 'S3' in rules:
         rep.count('S3')
         dec = [i for i in infos if i['decode_at'] is not None]
-        bad = [i for i in dec if i['decode_at'].c != 0 or i['decode_at'].t]
+        bad = [i for i in dec if i['decode_at'].c != 0 or i['decode_at'].t != {'FILLER': 1}]
         rep.ob('S3', 'decode-at-object-start', not bad and bool(dec), rep.fn_site(fn),
                'obj->read() starts at the offset where the probing header read found the signature (offset = HDR - HDR = 0) on %d paths' % len(dec)
                if not bad and dec else 'the object is decoded from offset [%r] relative to its start' % (bad[0]['decode_at'] if bad else None), nontrivial=True)
@@ -1535,7 +1536,7 @@ def S2S3(F, rep, FL, rules):
                 un.append(i)
         bad = None
         for i in un:
-            if i['end'].c != 0 or i['end'].t != {'objectSize': 1}:
+            if i['end'].c != 0 or i['end'].t != {'objectSize': 1, 'FILLER': 1}:
                 bad = 'ends at offset [%r] instead of start + objectSize' % i['end']
             if i['out'] not in ('normal', 'return'):
                 bad = 'leaves by exception'
@@ -1721,11 +1722,12 @@ def T1(F, rep, FL):
             end = i['end']
             if i.get('repos') == 'declared-end':
                 # continue at (object start) + objectSize: needs the start mark at offset 0 and a positive lower bound on objectSize
-                if end.c != 0 or end.t != {'objectSize': 1}:
+                if end.c != 0 or end.t != {'objectSize': 1, 'FILLER': 1}:
                     other = [t_ for t_ in end.t if str(t_).startswith('NOT-objectSize:')]
                     bad = ('known-type path continues at object start + %s, not at the declared end start + objectSize: bytes between the two (the '
                            'beginning of the next object, when fewer fill bytes follow than expected) are swallowed' % other[0].split(':', 1)[1]) if other else \
-                        'known-type path continues at offset [%r], not at object start + objectSize' % end
+                        ('known-type path continues at [%r] (FILLER = the bytes the signature search stepped over in front of the object; the object '
+                         'starts at FILLER), not at object start + objectSize: the start mark was not taken at the object start' % end)
                     break
                 if lo <= 0:
                     bad = ('known-type path continues at the declared end of the object; with objectSize unconstrained (lower bound %d) the net advance '
@@ -1735,7 +1737,7 @@ def T1(F, rep, FL):
                 raise AnalysisBroken('T1: the re-positioning after the decode (%s) is of a form the offset algebra does not know' % i['repos'][:160])
             elif i.get('repos') is None:
                 # no re-positioning on this path: the advance is what the decoder consumed - at least its header (checked below)
-                if end.t.get('CONSUMED') != 1 or end.c != 0 or len(end.t) != 1:
+                if end.t.get('CONSUMED') != 1 or end.c != 0 or set(end.t) != {'CONSUMED', 'FILLER'} or end.t.get('FILLER') != 1:
                     bad = 'known-type path ends at offset [%r]' % end
                     break
             else:
